@@ -1,1 +1,146 @@
 // Kani contract harnesses for /repo/arrow-avro/src/reader/block.rs (child module: sees private items via super::)
+use super::*;
+#[path = "/verif/kani/support/spec.rs"]
+mod spec;
+use spec::*;
+
+// Contract (C14, C18): BlockDecoder::decode is independent of chunking on a complete block with a
+// PAYLOAD-byte payload: input = count varint (1 byte, symbolic count 0..=63) ++ size varint (1 byte =
+// PAYLOAD) ++ PAYLOAD arbitrary bytes ++ 16 arbitrary sync bytes ++ 2 trailing bytes. Feeding the input
+// in two chunks cut at ANY position (empty chunks included) yields, like the one-shot call: all bytes of
+// the block consumed and not one more (the trailing bytes are left for the next block), flush() =
+// Some(block) with block.count = count, block.data = the payload bytes, block.sync = exactly the 16 bytes
+// that follow the payload (so the reader's comparison against the header's sync marker sees the bytes of
+// the file — a mismatch cannot be masked by the split), and a second flush() = None. A block cut short
+// (input ends early) leaves flush() = None: no block is ever produced from a truncated block.
+// Grid rule: the payload size is concrete per harness (it sizes Vec::reserve/extend_from_slice).
+// Stub: alloc::fmt::format.
+fn block_chunking<const PAYLOAD: usize>() {
+    const HDR: usize = 2;
+    let count: u8 = kani::any();
+    kani::assume(count < 64);
+    let body: [u8; 24] = kani::any();
+    let total = HDR + PAYLOAD + 16;
+    let mut input = [0u8; 28];
+    input[0] = 2 * count; // zig-zag of a small non-negative long
+    input[1] = 2 * PAYLOAD as u8;
+    let mut i = 0;
+    while i < PAYLOAD + 16 + 2 {
+        input[HDR + i] = body[i];
+        i += 1;
+    }
+    let n = total + 2;
+    let cut: usize = kani::any();
+    kani::assume(cut <= n);
+    let mut d = BlockDecoder::default();
+    let r1 = d.decode(&input[..cut]);
+    let u1 = match &r1 {
+        Ok(u) => *u,
+        Err(_) => {
+            assert!(false);
+            0
+        }
+    };
+    std::mem::forget(r1);
+    assert!(u1 == if cut < total { cut } else { total });
+    if cut < total {
+        // truncated so far: nothing to flush
+        assert!(d.flush().is_none());
+        let r2 = d.decode(&input[cut..n]);
+        let u2 = match &r2 {
+            Ok(u) => *u,
+            Err(_) => {
+                assert!(false);
+                0
+            }
+        };
+        std::mem::forget(r2);
+        assert!(u1 + u2 == total);
+    }
+    let b = d.flush();
+    assert!(b.is_some());
+    let b = b.unwrap();
+    assert!(b.count == count as usize);
+    assert!(b.data.len() == PAYLOAD);
+    let j: usize = kani::any();
+    kani::assume(j < 16);
+    assert!(b.sync[j] == input[HDR + PAYLOAD + j]);
+    if PAYLOAD > 0 {
+        let k: usize = kani::any();
+        kani::assume(k < PAYLOAD);
+        assert!(b.data[k] == input[HDR + k]);
+    }
+    assert!(d.flush().is_none());
+    kani::cover!(cut == 0);
+    kani::cover!(cut == 1);
+    kani::cover!(cut == HDR + PAYLOAD + 7); // inside the sync marker
+    kani::cover!(cut == total);
+    kani::cover!(cut == n);
+}
+// NOT CONFIRMED: did not finish within 900 s under a machine load of ~70 (no memory problem observed: 2.3 GB)
+// @unit name=block_decode_chunking_p0 props=C14,C18 kind=bounded bound=payload=0_bytes_2_chunks fns=BlockDecoder::decode,BlockDecoder::flush tier=thorough timeout=900 mem=6
+#[kani::proof]
+#[kani::unwind(24)]
+#[kani::stub(alloc::fmt::format, stub_format)]
+fn block_decode_chunking_p0() {
+    block_chunking::<0>()
+}
+// NOT CONFIRMED: did not finish within 900 s under a machine load of ~70
+// @unit name=block_decode_chunking_p3 props=C14,C18 kind=bounded bound=payload=3_bytes_2_chunks fns=BlockDecoder::decode,BlockDecoder::flush tier=thorough timeout=900 mem=6
+#[kani::proof]
+#[kani::unwind(24)]
+#[kani::stub(alloc::fmt::format, stub_format)]
+fn block_decode_chunking_p3() {
+    block_chunking::<3>()
+}
+
+// Contract (C08, C18): a negative block count or block size (corrupt header) is an error, not a panic or a
+// wrapped usize; an over-long varint is an error.
+// NOT CONFIRMED: did not finish within 900 s under a machine load of ~70
+// @unit name=block_decode_rejects_negative props=C08,C18 kind=bounded bound=input<=12_bytes_header_only fns=BlockDecoder::decode tier=thorough timeout=900 mem=4
+#[kani::proof]
+#[kani::unwind(14)]
+#[kani::stub(alloc::fmt::format, stub_format)]
+fn block_decode_rejects_negative() {
+    let a: [u8; 12] = kani::any();
+    let n: usize = kani::any();
+    kani::assume(n <= 12);
+    // keep the decoder in the two header states: the size varint, if reached, announces 0 payload bytes or is negative/malformed
+    let mut d = BlockDecoder::default();
+    // first varint
+    let mut v = 0u64;
+    let mut i = 0;
+    let mut first: Option<(u64, usize)> = None;
+    let mut malformed = false;
+    while i < n && i < 10 {
+        if i == 9 && a[i] >= 2 {
+            malformed = true;
+            break;
+        }
+        v |= ((a[i] & 0x7f) as u64) << (7 * i);
+        if a[i] & 0x80 == 0 {
+            first = Some((v, i + 1));
+            break;
+        }
+        i += 1;
+    }
+    // only look at inputs that end with the first varint (the count)
+    kani::assume(malformed || first.is_none() || first.unwrap().1 == n);
+    let r = d.decode(&a[..n]);
+    if malformed {
+        assert!(r.is_err());
+    } else if let Some((u, _)) = first {
+        // zig-zag: odd images are negative
+        assert!(r.is_ok() == (u & 1 == 0));
+        if r.is_ok() {
+            assert!(d.in_progress.count as u64 == u / 2);
+        }
+    } else {
+        assert!(matches!(r, Ok(k) if k == n));
+    }
+    assert!(d.flush().is_none());
+    kani::cover!(malformed);
+    kani::cover!(r.is_err() && !malformed);
+    kani::cover!(r.is_ok() && first.is_some() && n == 10);
+    std::mem::forget(r);
+}
